@@ -65,6 +65,16 @@ def run_c14(chk):
                                       1609113600, 1829865600, 1546214400, 1577664000])]
     asts = [w for _, w in SC.witness_asts("C14")]
     asts += [gen.gen_project(chk.rng, knobs[i % 3]) for i in range(n)]
+    # absences measured in months: a blocking booking of `+1m` is thirty days wherever it starts, so the premise holds; a
+    # calendar-month reading would make the schedule depend on the month the project happens to begin in
+    for i, p in enumerate(asts):
+        if i % 4 == 1 and p.get("dur", [0, "w"])[1] == "w":
+            leaves = [r for _, r, _ in A.flat_resources(p) if A.is_leaf(r) and not r.get("children")]
+            if leaves:
+                r = chk.rng.choice(leaves)
+                day = (p["start"] // 86400) * 86400 + chk.rng.randrange(0, 5) * 86400
+                r["bookings"] = [[day + chk.rng.choice([0, 9, 13]) * 3600, chk.rng.choice(["1m", "1m", "2m"])]]
+                p["dur"] = [max(p["dur"][0], 14), "w"]
     weeks = [1, 4, 52, 53, 104, 261]
     base = project_stream.run_projects(chk, asts, want_oracles=())
     dis = [{"stream": "project", "text": r["text"], "ast": r["ast"], "diffs": r["diffs"][:6]} for r in base if r["diffs"] and not r["skipped"]]
